@@ -88,6 +88,16 @@ def run(ctx):
             w = core.Writer()
             tl.append('ext_tag_%s %s' % (name, core.hexs(t.to_bytes(2, 'big') + b'\0\0')))
             tm.append((name, own, t))
+    BODY = {'sni': bytes.fromhex('0006000003616263'), 'max_fragment_length': b'\x01', 'status_request': bytes.fromhex('0100000000'),
+            'elliptic_curves': bytes.fromhex('0004001d0017'), 'ec_point_formats': bytes.fromhex('0100'), 'signature_algorithms': bytes.fromhex('000404030804'),
+            'heartbeat': b'\x01', 'encrypt_then_mac': b'', 'extended_master_secret': b'', 'session_ticket': b'\x07\x08', 'key_share': bytes.fromhex('0002001d'),
+            'pre_shared_key': b'\x00\x01', 'early_data': bytes.fromhex('00000e10'), 'supported_versions': bytes.fromhex('020304'), 'cookie': b'\x09\x09',
+            'psk_key_exchange_modes': bytes.fromhex('0101')}
+    for name, own in TAGS.items():
+        body = BODY[name]
+        for t in (range(65536) if ctx.thorough else sorted(set(range(0, 320)) | set(common.interesting_values(65536)) | {own})):
+            tl.append('ext_tag_%s %s' % (name, core.hexs(t.to_bytes(2, 'big') + len(body).to_bytes(2, 'big') + body)))
+            tm.append((name, own, t))
     impl, model = ctx.run_both(tl)
     for (name, own, t), ln, a, b in zip(tm, tl, impl, model):
         ra, _ = core.split_side(a)
@@ -103,6 +113,7 @@ def run(ctx):
     fams = [f for f in enc.FAMILIES if f.startswith('ext') ]
     exact, mutants = common.gen_cases(ctx, fams, n, corrupt_limit=5)
     common.run_exact(ctx, exact)
+    common.run_exact(ctx, common.long_tails(ctx, exact))
     common.run_differential(ctx, mutants, common.proj_value)
     # 4. a length field exceeding the enclosing block never yields a value; the list parser stops before it
     ov, prefixes = [], {}
